@@ -234,7 +234,12 @@ def judge(case, ctx):
             exp = SCALARS[e.name]
             if got != exp or type(got) is not type(exp) and not isinstance(got, type(exp)):
                 return {'kind': 'zero-row-result-differs', 'expected': repr(exp), 'observed': repr(got)}
-        return None          # vis / stats helpers: exception-freeness is the claim
+        if e.group == 'vis':
+            # a rendering of a table without data rows still shows the table: every field name appears
+            ctx.seen('explicit-expectation-used')
+            if not isinstance(got, str) or not all(h in got for h in H3):
+                return {'kind': 'zero-row-result-differs', 'expected': 'a rendering that names the fields %r' % (H3,), 'observed': repr(got)}
+        return None          # other helpers: exception-freeness is the claim
     if e.kind == 'items':
         if got != []:
             return {'kind': 'items-from-a-table-without-rows', 'observed': got}
